@@ -739,31 +739,41 @@ def py_strip(s, chars):
     return s.strip(chars)
 
 
-def inverse_of_suffix(expr_src, key, suffix):
-    """evaluate the (recognised) key-transform expression of animal_populations.main on a concrete key"""
-    e = expr_src.replace(" ", "")
-    m = re.fullmatch(r"key\.strip\((['\"])(.*)\1\)", e)
-    if m:
-        return key.strip(m.group(2))
-    m = re.fullmatch(r"key\.rstrip\((['\"])(.*)\1\)", e)
-    if m:
-        return key.rstrip(m.group(2))
-    m = re.fullmatch(r"key\.removesuffix\((['\"])(.*)\1\)", e)
-    if m:
-        return key[: -len(m.group(2))] if m.group(2) and key.endswith(m.group(2)) else key
-    m = re.fullmatch(r"key\.replace\((['\"])(.*)\1,(['\"])(.*)\3\)", e)
-    if m:
-        return key.replace(m.group(2), m.group(4))
-    m = re.fullmatch(r"key\[:-(\d+)\]", e)
-    if m:
-        return key[: -int(m.group(1))]
-    m = re.fullmatch(r"key\[:-len\((['\"])(.*)\1\)\]", e)
-    if m:
-        return key[: -len(m.group(2))]
-    m = re.fullmatch(r"key\.split\((['\"])(.*)\1\)\[0\]", e)
-    if m:
-        return key.split(m.group(2))[0]
-    raise AnalysisError(f"head-count override: key transform {expr_src!r} is outside the recognised string idioms")
+def str_eval(node, var, value):
+    """constant folding of a pure string expression in one free variable (the loop variable `var`, bound to the concrete string
+    `value`): str methods strip/lstrip/rstrip/removesuffix/removeprefix/replace/split/lower/upper, slicing, indexing, len(), +,
+    string and integer literals.  Anything else -> AnalysisError."""
+    def ev(n):
+        if isinstance(n, ast.Constant) and isinstance(n.value, (str, int)) and not isinstance(n.value, bool):
+            return n.value
+        if isinstance(n, ast.Name) and n.id == var:
+            return value
+        if isinstance(n, ast.UnaryOp) and isinstance(n.op, ast.USub):
+            return -ev(n.operand)
+        if isinstance(n, ast.BinOp) and isinstance(n.op, (ast.Add, ast.Sub)):
+            l_, r_ = ev(n.left), ev(n.right)
+            return l_ + r_ if isinstance(n.op, ast.Add) else l_ - r_
+        if isinstance(n, ast.JoinedStr):
+            return "".join(ev(v.value) if isinstance(v, ast.FormattedValue) else v.value for v in n.values)
+        if isinstance(n, ast.Call) and isinstance(n.func, ast.Name) and n.func.id == "len" and len(n.args) == 1:
+            return len(ev(n.args[0]))
+        if isinstance(n, ast.Call) and isinstance(n.func, ast.Attribute) and not n.keywords:
+            recv = ev(n.func.value)
+            args = [ev(a_) for a_ in n.args]
+            if isinstance(recv, str) and n.func.attr in ("strip", "lstrip", "rstrip", "removesuffix", "removeprefix", "replace", "split", "lower", "upper",
+                                                         "rsplit", "partition", "rpartition"):
+                return getattr(recv, n.func.attr)(*args)
+        if isinstance(n, ast.Subscript):
+            recv = ev(n.value)
+            if isinstance(n.slice, ast.Slice):
+                lo = ev(n.slice.lower) if n.slice.lower is not None else None
+                hi = ev(n.slice.upper) if n.slice.upper is not None else None
+                st_ = ev(n.slice.step) if n.slice.step is not None else None
+                return recv[lo:hi:st_]
+            return recv[ev(n.slice)]
+        raise AnalysisError(f"head-count override: key transform `{norm_src(node)}` is outside the recognised string idioms")
+
+    return ev(node)
 
 
 def override(index, rep):
@@ -771,16 +781,17 @@ def override(index, rep):
     fn = index.func(RUN, "ScenarioRunner.set_depending_on_option")
     # writer side: f"{key}_start" under `"_head" in key`
     wr = None
+    wvar = None
     for st in walk_no_nested(fn):
-        if isinstance(st, ast.If) and norm_src(st.test) == "'_head' in key":
-            for s in st.body:
-                if isinstance(s, ast.Assign) and isinstance(s.targets[0], ast.Subscript):
-                    wr = s
+        m_ = re.fullmatch(r"'_head' in (\w+)", norm_src(st.test)) if isinstance(st, ast.If) else None
+        if m_:
+            for s_ in st.body:
+                if isinstance(s_, ast.Assign) and isinstance(s_.targets[0], ast.Subscript):
+                    wr = s_
+                    wvar = m_.group(1)
     if wr is None:
         raise AnalysisError("set_depending_on_option: head-count override writer not found")
     wkey = wr.targets[0].slice
-    if not (isinstance(wkey, ast.JoinedStr) and norm_src(wkey) == "f'{key}_start'"):
-        raise AnalysisError("head-count override: written key is no longer f'{key}_start'")
     main = index.func(ANIM, "main")
     rd = None
     for st in walk_no_nested(main):
@@ -795,15 +806,18 @@ def override(index, rep):
     if not (isinstance(sl, ast.Tuple) and len(sl.elts) == 2):
         raise AnalysisError("head-count override reader: not df.loc[country, column]")
     transform = norm_src(sl.elts[1])
+    rvars = sorted({n_.id for n_ in ast.walk(sl.elts[1]) if isinstance(n_, ast.Name) and n_.id != "len"})
+    if len(rvars) != 1:
+        raise AnalysisError(f"head-count override reader: the column expression `{transform}` is not a function of the one key variable")
     with open(index.path(HEADCSV), newline="") as f:
         header = next(csv.reader(f))
     head_cols = [c for c in header if c.endswith("_head")]
     if len(head_cols) < 15:
         raise AnalysisError("head-count table has too few *_head columns")
     for col in head_cols:
-        stored = col + "_start"
-        back = inverse_of_suffix(transform, stored, "_start")
-        rep.check(back == col, rule, f"head-override:{col}",
+        stored = str_eval(wkey, wvar, col)
+        back = str_eval(sl.elts[1], rvars[0], stored)
+        rep.check(back == col and stored.endswith("_head_start"), rule, f"head-override:{col}",
                   f"override key '{col}' is stored as '{stored}' and read back as column '{back}': the override creates a new "
                   f"column instead of changing {col} (transform {transform})", loc=loc(ANIM, rd))
     # applied once: the frame the override is written into is read afresh for this run (not a process-wide cached object)
@@ -815,7 +829,7 @@ def override(index, rep):
               "the override is written into an object that a memoised reader hands to every later run as well (applied more than once): " +
               "; ".join(f[3] for f in mine[:2]), loc=loc(ANIM, mine[0][1]) if mine else loc(ANIM, rd))
     # the value written is the option's own value
-    rep.check(norm_src(wr.value) == "int(scenario_option_copy[key])", rule, "head-override:value",
+    rep.check(norm_src(wr.value) == f"int(scenario_option_copy[{wvar}])", rule, "head-override:value",
               "the stored head count is not the option's value", loc=loc(RUN, wr))
     # kg_meat_per_large_animal -> MeatAndDairy.KG_PER_LARGE_ANIMAL
     md = index.func("src/food_system/meat_and_dairy.py", "MeatAndDairy.__init__")
